@@ -10,6 +10,7 @@ import (
 	"fmt"
 	"os"
 	"path/filepath"
+	"regexp"
 	"sort"
 	"strconv"
 	"strings"
@@ -155,6 +156,8 @@ type Coverage struct {
 	Extra              map[string]any
 }
 
+const maxArtefacts = 60
+
 // Finish prints the verdict lines, writes evidence and replay artefacts and exits.
 func (r *Report) Finish(cov Coverage, assumptions []string) {
 	known := loadKnown()
@@ -181,6 +184,15 @@ func (r *Report) Finish(cov Coverage, assumptions []string) {
 			continue
 		}
 		newCount++
+		if newCount > maxArtefacts {
+			// a fault whose message varies from case to case would write one artefact per case: the first ones are kept,
+			// the rest are counted
+			if newCount == maxArtefacts+1 {
+				fmt.Printf("  (further new violations are counted but not written out)\n")
+			}
+			fresh = append(fresh, sig)
+			continue
+		}
 		h := sha1.Sum([]byte(sig))
 		path := filepath.Join(Root, "replays", fmt.Sprintf("%s-%s.json", r.Property, hex.EncodeToString(h[:5])))
 		b, _ := json.MarshalIndent(map[string]any{
@@ -210,6 +222,10 @@ func (r *Report) Finish(cov Coverage, assumptions []string) {
 		coverage[k] = v
 	}
 	coverage["known_findings_hit"] = knownHit
+	if len(fresh) > 200 {
+		coverage["new_violation_signature_count"] = len(fresh)
+		fresh = fresh[:200]
+	}
 	coverage["new_violation_signatures"] = fresh
 	if len(r.Infra) > 0 {
 		coverage["infra_errors"] = r.Infra
@@ -344,12 +360,16 @@ func PanicClass(v string) string {
 		}
 		b.WriteByte(v[i])
 	}
-	v = stripQuoted(b.String())
+	v = digitRuns.ReplaceAllString(stripQuoted(b.String()), "#")
 	if len(v) > 140 {
 		v = v[:140]
 	}
 	return v
 }
+
+// digitRuns: runs of three or more digits (process ids, random suffixes of temporary names, addresses, counters) say
+// which instance failed, not why.
+var digitRuns = regexp.MustCompile(`[0-9]{3,}`)
 
 // stripQuoted replaces the content of single- and double-quoted substrings (ids, values) by "?".
 func stripQuoted(s string) string {
